@@ -230,7 +230,7 @@ def _xor_mag(c, mask):
     return a if c >= 0 else -a
 
 
-def _relative(rng, toks, idx):
+def _relative(rng, toks, idx, known_ops=()):
     """One close relative of the request `toks` (list of tokens; idx = positions of the Decimal operands), or None."""
     M = O.M
     v = list(toks)
@@ -304,7 +304,7 @@ def _relative(rng, toks, idx):
         if op == "toint":
             v[1] = rng.choice([t for t in _TOINT_TYPES if t != toks[1]])
             return v
-        if op in _ALIAS_OPS:
+        if op in _ALIAS_OPS and _ALIAS_OPS[op] in known_ops:
             v[0] = _ALIAS_OPS[op]
             if v[0].startswith("c") and len(v) > 1 and v[1] in _FORM_FOR_CHECKED:
                 v[1] = _FORM_FOR_CHECKED[v[1]]
@@ -330,6 +330,7 @@ def add_locality(reqs, rng, p=0.03):
     to the next) returns a relative's answer for the original."""
     out = []
     cur = O.DEFAULT_MODE
+    known_ops = set(r.split(" ", 1)[0] for r in reqs)          # sibling entry points only if the property uses them
     for r in reqs:
         out.append(r)
         if r.startswith("mode "):
@@ -343,7 +344,7 @@ def add_locality(reqs, rng, p=0.03):
             b = int(toks[1])
             width = 64 if toks[0] == "fromf64" else 32
             k = rng.randrange(4)
-            if k == 0 and b < (1 << 32):
+            if k == 0 and b < (1 << 32) and ("fromf32" if width == 64 else "fromf64") in known_ops:
                 rel = "%s %d" % ("fromf32" if width == 64 else "fromf64", b)
             elif k == 1:
                 rel = "%s %d" % (toks[0], b ^ (1 << rng.randrange(0, width)))
@@ -363,7 +364,7 @@ def add_locality(reqs, rng, p=0.03):
         idx = [i for i, t in enumerate(toks) if _DTOK.match(t)]
         if not idx:
             continue
-        v = _relative(rng, toks, idx)
+        v = _relative(rng, toks, idx, known_ops)
         if v is None:
             continue
         rel = " ".join(v)
@@ -375,7 +376,7 @@ def add_locality(reqs, rng, p=0.03):
         else:
             chain = [rel]                                         # A B C D A
             for _ in range(rng.randrange(2, 4)):
-                w = _relative(rng, v, [i for i, t in enumerate(v) if _DTOK.match(t)])
+                w = _relative(rng, v, [i for i, t in enumerate(v) if _DTOK.match(t)], known_ops)
                 if w is not None:
                     v = w
                     chain.append(" ".join(v))
